@@ -1,18 +1,25 @@
 #!/bin/bash
 # tools/mutant.sh [-b] <patch.diff> <Cxx> [<Cyy> ...]
-# Applies a patch to /repo, optionally runs the repository's tests (-b), runs the quick checks,
-# reports which ones raise VIOLATION, and restores /repo.
+# Applies a patch to a scratch worktree of /repo's HEAD (outside /repo and /verif), optionally runs
+# the repository's tests there (-b), runs the quick checks against it from a scratch copy of
+# /verif (VERIF_REPO, see mc/goenv.sh), reports which ones raise VIOLATION, and removes both.
+# /repo itself is never modified.
 BASE=0
 if [ "$1" = "-b" ]; then BASE=1; shift; fi
 PATCH=$(realpath "$1"); shift
-cd /repo || exit 2
-if ! git diff --quiet; then echo "/repo has uncommitted changes; refusing"; exit 2; fi
-git apply "$PATCH" || { echo "patch does not apply"; exit 2; }
-trap 'git -C /repo checkout -- . >/dev/null 2>&1' EXIT
-if [ $BASE = 1 ]; then /verif/tools/baseline.sh || echo "NOTE: baseline tests FAIL with this patch"; fi
+N=$(basename "$PATCH" .diff).$$
+WT=/tmp/mut/$N; SV=/tmp/mut/$N.verif
+mkdir -p /tmp/mut
+git -C /repo worktree add -q --detach "$WT" HEAD || exit 2
+cleanup() { git -C /repo worktree remove --force "$WT" >/dev/null 2>&1; rm -rf "$WT" "$SV"; git -C /repo worktree prune; }
+trap cleanup EXIT
+(cd "$WT" && git apply "$PATCH") || { echo "patch does not apply"; exit 2; }
+if [ $BASE = 1 ]; then /verif/tools/baseline.sh "$WT" || echo "NOTE: baseline tests FAIL with this patch"; fi
+mkdir -p "$SV"
+rsync -a --exclude .git --exclude .bin --exclude .overlay --exclude .altmod --exclude evidence --exclude replays /verif/ "$SV/"
 for id in "$@"; do
-  out=$(cd /verif && VERIF_NO_EVIDENCE=1 ./run "$id" ${TIER:-quick} 2>&1); rc=$?
+  out=$(cd "$SV" && VERIF_REPO=$WT VERIF_NO_EVIDENCE=1 ./run "$id" ${TIER:-quick} 2>&1); rc=$?
   v=$(echo "$out" | grep -c '^VIOLATION')
   echo "== $(basename "$PATCH") vs $id: exit=$rc violations=$v"
-  echo "$out" | grep -E '^(violation:|INFRA|KNOWN)' | head -${SHOW:-3}
+  echo "$out" | grep -E '^(violation:|INFRA|KNOWN)' | head -${SHOW:-3} | cut -c1-300
 done
